@@ -27,6 +27,21 @@ MUTATIONS = [
     ("dask_expr/_expr.py", "            partitions = partitions[: self.operand(\"npartitions\")]", "            partitions = partitions[: self.operand(\"npartitions\") - 1]", "vf.contracts.partitions:HeadPartitions", "post:first-k"),
     ("dask_expr/_expr.py", "            self.frame.divisions[self.operand(\"npartitions\")],\n        )", "            self.frame.divisions[self.operand(\"npartitions\") - 1],\n        )", "vf.contracts.partitions:HeadDivisions", "post:span"),
     ("dask_expr/io/io.py", "        divisions = divisions + (len(self.frame) - 1,)", "        divisions = divisions + (len(self.frame),)", "vf.contracts.partitions:FromArrayDivisions", "post:"),
+    ("dask_expr/_cumulative.py", "                    (intermediate_name, i - 1),\n                    (previous_partitions._name, i - 1),", "                    (intermediate_name, i - 1),\n                    (previous_partitions._name, i),", "vf.contracts.layers:CumulativeFinalizeLayer", "post:carry-recurrence"),
+    ("dask_expr/_cumulative.py", "        for i in range(1, self.frame.npartitions):\n            if i == 1:", "        for i in range(1, self.frame.npartitions - 1):\n            if i == 1:", "vf.contracts.layers:CumulativeFinalizeLayer", "post:K1-outputs-defined"),
+    ("dask_expr/_cumulative.py", "                (self.frame._name, i),\n                (intermediate_name, i),", "                (self.frame._name, i),\n                (intermediate_name, i - 1),", "vf.contracts.layers:CumulativeFinalizeLayer", "post:outputs-aggregate"),
+    ("dask_expr/_repartition.py", "        split_name = f\"split-{new_name}\"", "        split_name = f\"split-{df._name}\"", "vf.contracts.layers:MoreLayer", "post:K3-only-own-keys"),
+    ("dask_expr/_repartition.py", "k)\n                for jj in range(k):\n                    dsk[new_name, j] = (getitem, (split_name, i), jj)", "k)\n                for jj in range(k):\n                    dsk[new_name, j] = (getitem, (split_name, i), k - jj)", "vf.contracts.layers:MoreLayer", "post:dataflow-split-in-order"),
+    ("dask_expr/_repartition.py", "                dsk[new_name, j] = (df._name, i)\n                j += 1", "                dsk[new_name, j] = (df._name, i)\n                j += 2", "vf.contracts.layers:MoreLayer", "inv-preserved:loop0"),
+    ("dask_expr/_repartition.py", "        nsplits[-1] += mod\n", "        nsplits[0] += mod\n", "vf.contracts.layers:MoreNSplits", "post:"),
+    ("dask_expr/_repartition.py", "        return (None,) * (1 + sum(self._nsplits))", "        return (None,) * (1 + len(self._nsplits))", "vf.contracts.layers:MoreDivisions", "post:length-new+1"),
+    ("dask_expr/io/io.py", "        for part, k in enumerate(self.operand(\"keys\")):\n            dsk[(self._name, part)] = k", "        for part, k in enumerate(sorted(self.operand(\"keys\"))):\n            dsk[(self._name, part)] = k", "vf.contracts.layers:FromGraphLayer", "HARMLESS-OR-UNDECIDED"),
+    ("dask_expr/io/io.py", "        for part, k in enumerate(self.operand(\"keys\")):\n            dsk[(self._name, part)] = k", "        for part, k in enumerate(self.operand(\"keys\")):\n            dsk[(self._name, part + 1)] = k", "vf.contracts.layers:FromGraphLayer", "post:"),
+    ("dask_expr/_shuffle.py", "                    (repartition_group_name, p % npartitions_input),", "                    (repartition_group_name, i % npartitions_input),", "vf.contracts.layers:TaskShuffleTail", "post:outputs-pick-final-group"),
+    ("dask_expr/_shuffle.py", "                for i in range(npartitions_input)\n            }\n\n            for i, p in enumerate(self._partitions):", "                for i in range(npartitions)\n            }\n\n            for i, p in enumerate(self._partitions):", "vf.contracts.layers:TaskShuffleTail", "post:"),
+    ("dask_expr/_shuffle.py", "                (split_name, part_out, part_in)\n                for part_in in range(self.frame.npartitions)", "                (split_name, part_out, part_in)\n                for part_in in range(1, self.frame.npartitions)", "vf.contracts.layers:SimpleShuffleLayer", "post:outputs-concat-piece-of-every-input"),
+    ("dask_expr/_shuffle.py", "                    (shuffle_group_name, _part_in),\n                    _part_out,\n                )\n                if (shuffle_group_name, _part_in) not in dsk:", "                    (shuffle_group_name, _part_in),\n                    global_part,\n                )\n                if (shuffle_group_name, _part_in) not in dsk:", "vf.contracts.layers:SimpleShuffleLayer", "post:K3-pieces-and-groups"),
+    ("dask_expr/_shuffle.py", "                        (self.frame._name, _part_in),\n                        _filter,", "                        (self.frame._name, _part_out),\n                        _filter,", "vf.contracts.layers:SimpleShuffleLayer", "fn:guarded-insert"),
     # harmless edits: renamed local, reordered independent statements, extra statement
     ("dask_expr/_expr.py", "        new_divisions = []\n        for part in self._partitions:\n            new_divisions.append(full_divisions[part])\n        new_divisions.append(full_divisions[part + 1])\n        return tuple(new_divisions)", "        picked = []\n        for part in self._partitions:\n            picked.append(full_divisions[part])\n        picked.append(full_divisions[part + 1])\n        return tuple(picked)", "vf.contracts.partitions:PFDivisions", None),
     ("dask_expr/_repartition.py", "        npartitions = self.new_partitions\n        npartitions_input = self.frame.npartitions\n", "        npartitions_input = self.frame.npartitions\n        npartitions = self.new_partitions\n", "vf.contracts.repartition:FewerBoundaries", None),
@@ -37,7 +52,10 @@ def main():
     tmp = tempfile.mkdtemp(prefix="verif_selftest_")
     failures = 0
     try:
+        only = os.environ.get("VERIF_SELFTEST_ONLY")
         for k, (rel, old, new, specid, expect) in enumerate(MUTATIONS):
+            if only and only not in specid:
+                continue
             root = os.path.join(tmp, f"m{k}")
             shutil.copytree("/repo/dask_expr", os.path.join(root, "dask_expr"), ignore=shutil.ignore_patterns("tests", "__pycache__"))
             path = os.path.join(root, rel)
